@@ -68,22 +68,48 @@ def vDigital [OfNat α 2] (a b psi : α) : α := 2 / (b - a) * psi
 /-- `FFTPricer.put`: `call - df*(fwd - strike)` (fft.py:90-92) -/
 def fftPut (call df fwd K : α) : α := call - df * (fwd - K)
 
-end generic
+/-! ### COS series with the first term halved (cosmethod.py:38-40, 137-139)
 
-/-! ### COS series with the first term halved (cosmethod.py:38-40, 137-139), over ℚ -/
+Generic over the carrier: executed over ℚ by the driver (`cosPutOfTerms`), reasoned about over ℝ in
+Proofs/Lemmas/C18Exact.lean (the series of the real transform values). -/
 
 /-- `sum(weights * terms)` with `weights = (1/2, 1, 1, …)` -/
-def halfFirstSum : List Rat → Rat
+def halfFirstSum [Zero α] [OfNat α 2] : List α → α
   | [] => 0
   | t0 :: rest => t0 / 2 + rest.sum
+
+end generic
 
 /-- put price from the list of real parts of the series terms -/
 def cosPutOfTerms (df K : Rat) (terms : List Rat) : Rat := cosPut df K (halfFirstSum terms)
 
-/-! ### Black–Scholes closed form (cfblackscholes.py:39-122), over ℚ
+/-! ### Black–Scholes closed form (cfblackscholes.py:39-122)
 
 `Φ` is the normal distribution function (abstract), `lg = log(fwd/strike)` and `sd = sigma*sqrt(maturity)` are
-parameters.  `flag = 1` call, `flag = -1` put. -/
+parameters.  `flag = 1` call, `flag = -1` put.  The regular branch is generic over the carrier (executed over ℚ by the
+driver, differentiated in the strike over ℝ in Proofs/Lemmas/C18BS.lean); the threshold test and the degenerate branch
+are over ℚ. -/
+
+section bsgeneric
+variable {α : Type} [Add α] [Sub α] [Mul α] [Div α] [OfNat α 1] [OfNat α 2]
+
+/-- `d1 = np.log(fwd / strike) / stddev + 0.5 * stddev`  (cfblackscholes.py:58) -/
+def bsD1 (lg sd : α) : α := lg / sd + (1 / 2) * sd
+/-- `d2 = d1 - stddev`  (cfblackscholes.py:59) -/
+def bsD2 (lg sd : α) : α := bsD1 lg sd - sd
+
+/-- regular branch of `_call_put`: `df * flag * (fwd * norm.cdf(d1 * flag) - strike * norm.cdf(d2 * flag))` (line 61) -/
+def bsRegular (Φ : α → α) (flag df fwd K lg sd : α) : α :=
+  df * flag * (fwd * Φ (bsD1 lg sd * flag) - K * Φ (bsD2 lg sd * flag))
+
+/-- the argument of `norm.cdf` in `CFBlackScholes.digital`: `d2 = np.log(fwd / strike) / stddev - 0.5 * stddev` (line 120),
+computed there independently of `_call_put`'s `d2` -/
+def bsDigitalArg (lg sd : α) : α := lg / sd - (1 / 2) * sd
+
+/-- regular branch of `digital`: `df * norm.cdf(d2)` (line 122) -/
+def bsDigitalRegular (Φ : α → α) (df lg sd : α) : α := df * Φ (bsDigitalArg lg sd)
+
+end bsgeneric
 
 def rmax (a b : Rat) : Rat := if a ≤ b then b else a
 
@@ -91,13 +117,10 @@ def rmax (a b : Rat) : Rat := if a ≤ b then b else a
 def bsDegenerate (eps sigma spot T : Rat) : Bool :=
   decide (sigma < eps) || decide (spot < eps) || decide (T < eps)
 
-def bsD1 (lg sd : Rat) : Rat := lg / sd + (1 / 2) * sd
-def bsD2 (lg sd : Rat) : Rat := bsD1 lg sd - sd
-
 /-- `CFBlackScholes._call_put` -/
 def bsCallPut (Φ : Rat → Rat) (degenerate : Bool) (flag df fwd K lg sd : Rat) : Rat :=
   if degenerate then df * rmax 0 (flag * (fwd - K))
-  else df * flag * (fwd * Φ (bsD1 lg sd * flag) - K * Φ (bsD2 lg sd * flag))
+  else bsRegular Φ flag df fwd K lg sd
 
 def bsCall (Φ : Rat → Rat) (deg : Bool) (df fwd K lg sd : Rat) : Rat := bsCallPut Φ deg 1 df fwd K lg sd
 def bsPut (Φ : Rat → Rat) (deg : Bool) (df fwd K lg sd : Rat) : Rat := bsCallPut Φ deg (-1) df fwd K lg sd
@@ -108,6 +131,6 @@ def bsForward (spot dfDiv K df : Rat) : Rat := spot * dfDiv - K * df
 /-- `CFBlackScholes.digital`: `df * Φ(d2)` with `d2 = lg/sd - sd/2`; degenerate: `df * [fwd > k]` -/
 def bsDigital (Φ : Rat → Rat) (degenerate : Bool) (df fwd K lg sd : Rat) : Rat :=
   if degenerate then df * (if fwd > K then 1 else 0)
-  else df * Φ (lg / sd - (1 / 2) * sd)
+  else bsDigitalRegular Φ df lg sd
 
 end Rpylib.Pricers
